@@ -4,6 +4,7 @@ From Coq Require Import ZArith NArith List Bool Reals Floats. Import ListNotatio
 From PV Require Import Num NumR model.Optimiser model.OptSpec proofs.OptStruct proofs.OptLoop proofs.FloatFacts proofs.FloatZero proofs.HillClimb proofs.RealFacts.
 From PV Require Import model.Cli gen.GenCli proofs.CliFacts.
 From PV Require Import gen.GenFns model.Iter model.Pipeline proofs.ListLemmas proofs.SrcOpt.
+From PV Require Import proofs.SourceHeadlinesOpt.
 
 Theorem C05_zero_temperature_is_hill_climb :
   forall (fexp : F -> F) (fpow : F -> F -> F) (score : N -> list F -> option F), fexp
@@ -199,4 +200,23 @@ Theorem C05_optimiser_source_translated :
     translated_gen_set_sampled = true.
 Proof. exact optimiser_source_translated. Qed.
 Print Assumptions C05_optimiser_source_translated.
+
+
+Theorem C05_source_zero_temperature_is_hill_climb :
+  forall (fexp : F -> F) (fpow : F -> F -> F) (score : N -> list F -> option F), fexp
+    neg_infinity = 0%float -> forall (b : builder NumF) (ps : list (carrier NumF)) (hs : list
+    (handle NumF)) (s0 : F) (draws1 draws2 : list (draw NumF)), zero_start b -> fnan s0 = false
+    -> Forall thr_ok (draws1 ++ draws2) -> let c := gen_build NumF fpow b in let mid :=
+    fold_left (src_advance NumF fexp score c) draws1 (src_init NumF c ps hs s0) in let fin :=
+    fold_left (src_advance NumF fexp score c) (draws1 ++ draws2) (src_init NumF c ps hs s0) in
+    fleb s0 (score_cur NumF mid) = true /\ fleb (score_cur NumF mid) (score_cur NumF fin) = true.
+Proof. exact source_zero_temperature_is_hill_climb. Qed.
+Print Assumptions C05_source_zero_temperature_is_hill_climb.
+
+Theorem S_optimise_state_is_the_source_pieces :
+  forall (NN : Num) (fexp : carrier NN -> carrier NN) (score : N -> list (carrier NN) -> option
+    (carrier NN)) (c : cfg NN) (ps : list (carrier NN)) (hs : list (handle NN)) (draws : list
+    (draw NN)), optimise NN fexp score c ps hs draws = src_optimise NN fexp score c ps hs draws.
+Proof. exact optimise_state_is_the_source_pieces. Qed.
+Print Assumptions S_optimise_state_is_the_source_pieces.
 
